@@ -416,13 +416,13 @@ func cycle(g *gen.G, w *world, orig bool, st *stats) {
 	go func() { awaitStop(); close(awaited) }()
 	select {
 	case <-awaited:
-	case <-time.After(60 * time.Second):
+	case <-time.After(20 * time.Second):
 		// the model has no run in which main stays in `awaiting` for ever once the clients have
 		// finished: report the log so far with a marker the acceptor rejects
 		w.mu.Lock()
 		w.emit("DEADLOCK")
 		w.mu.Unlock()
-		fmt.Fprintf(os.Stderr, "corrjob: AwaitStop did not return within 60 s of RequestStop\n")
+		fmt.Fprintf(os.Stderr, "corrjob: AwaitStop did not return within 20 s of RequestStop\n")
 		return
 	}
 	w.mu.Lock()
@@ -487,8 +487,10 @@ func main() {
 			cycle(g, w, *orig, st)
 			st.Cycles++
 			if len(w.log) > 0 && w.log[len(w.log)-1] == "DEADLOCK" {
-				w.violations = append(w.violations, "AwaitStop never returned")
-				break
+				// report this history and stop: every further scenario would block for a minute too
+				fmt.Fprintf(gen.Out, "job\t1\t%s\t=>\taccepted\n", strings.Join(w.log, ","))
+				fmt.Fprintf(os.Stderr, "corrjob: scenario %d (seed %d): AwaitStop never returned\n", sc, *seed)
+				os.Exit(3)
 			}
 		}
 		st.Scenarios++
